@@ -68,12 +68,23 @@ class Seam:
         self.fault_filter = name_filter
 
     def disarm(self):
+        LINES.disarm()
         armed = self.fault_at is not None or self.bw_fault_at is not None
         self.fault_at = None
         self.fault_kind = None
         self.fault_filter = None
         self.bw_fault_at = None
         return armed
+
+    def arm_spec(self, fault):
+        """fault = {"kind", "seam": "kernel" | "bw" | "line", "at"}"""
+        seam = fault.get("seam", "kernel")
+        if seam == "kernel":
+            self.arm(fault["kind"], fault["at"])
+        elif seam == "bw":
+            self.arm_bw(fault["kind"], fault["at"])
+        else:
+            LINES.arm(fault["kind"], fault["at"])
 
     def arm_bw(self, kind, after_calls):
         self.bw_fault_at = self.bw_count + int(after_calls)
@@ -82,6 +93,55 @@ class Seam:
 
 SEAM = Seam()
 _installed = False
+
+
+# ---------------------------------------------------------------- line-level fault seam
+# sys.settrace line events inside the package under test are crash points: the simulator raises the injected fault AT the k-th line
+# executed inside synapgrad/*.py after arming, i.e. at an arbitrary point of an operation - between two accumulations of one backward
+# closure, between "flag cleared" and "flag restored", between two parameters of an optimizer step, inside a with-block of the Trainer.
+class LineSeam:
+    def __init__(self):
+        self.prefix = None
+        self.count = 0
+        self.at = None
+        self.kind = None
+        self.where = None
+
+    def _global(self, frame, event, arg):
+        if frame.f_code.co_filename.startswith(self.prefix):
+            return self._local
+        return None
+
+    def _local(self, frame, event, arg):
+        if event == "line" and self.at is not None:
+            self.count += 1
+            if self.count >= self.at:
+                kind, self.at = self.kind, None
+                import sys as _sys
+                _sys.settrace(None)
+                self.where = f"{frame.f_code.co_filename[len(self.prefix):]}:{frame.f_lineno}"
+                SEAM.fired.append((kind, "line " + self.where, self.count))
+                raise FAULT_TYPES[kind](f"injected {kind} at line event {self.count} ({self.where})")
+        return self._local
+
+    def arm(self, kind, at):
+        import os as _os
+        import sys as _sys
+        if self.prefix is None:
+            self.prefix = _os.path.join(env.REPO, "synapgrad") + _os.sep
+        self.count, self.at, self.kind, self.where = 0, int(at), kind, None
+        _sys.settrace(self._global)
+
+    def disarm(self):
+        """returns the number of line events seen since arming (a measure of the operation's length)"""
+        import sys as _sys
+        if self.at is not None or _sys.gettrace() is not None:
+            _sys.settrace(None)
+        self.at = None
+        return self.count
+
+
+LINES = LineSeam()
 _orig = {}
 
 
@@ -200,6 +260,10 @@ def fresh_modes(SG):
         S = SEAM
         saved = (S.fault_at, S.fault_kind, S.fault_filter, S.bw_fault_at, S.bw_calls, S.kernel_names)
         saved_created, S.bw_created = S.bw_created, None
+        import sys as _sys
+        saved_trace = _sys.gettrace()
+        if saved_trace is not None:
+            _sys.settrace(None)
         counts = (S.kernel_entries, S.bw_count)      # model work is not part of the run's event numbering
         S.fault_at = S.fault_filter = S.bw_fault_at = S.bw_calls = S.kernel_names = None
         try:
@@ -209,4 +273,6 @@ def fresh_modes(SG):
             S.fault_at, S.fault_kind, S.fault_filter, S.bw_fault_at, S.bw_calls, S.kernel_names = saved
             S.kernel_entries, S.bw_count = counts
             S.bw_created = saved_created
+            if saved_trace is not None:
+                _sys.settrace(saved_trace)
     return cm()
